@@ -219,8 +219,8 @@ def dump_tree_cases(logp, comp, prefix, path, per_episode=4000, extra=None, firs
 # ---------------------------------------------------------------- executor
 def run_exec(exe, cases, trace, env=None, timeout=3000, wrapper='', pre=''):
     e = dict(os.environ)
-    e.setdefault('ASAN_OPTIONS', 'abort_on_error=1:detect_leaks=0:allocator_may_return_null=1')
-    e.setdefault('UBSAN_OPTIONS', 'halt_on_error=1:abort_on_error=1:print_stacktrace=1')
+    e.setdefault('ASAN_OPTIONS', 'abort_on_error=1:detect_leaks=0:allocator_may_return_null=1:symbolize=0')
+    e.setdefault('UBSAN_OPTIONS', 'halt_on_error=1:abort_on_error=1:print_stacktrace=0')
     e.setdefault('TSAN_OPTIONS', 'halt_on_error=1:abort_on_error=1')
     if env:
         e.update(env)
